@@ -150,7 +150,7 @@ func vhArbitraryStateSys(db *pebble.DB, maxN, maxK, maxV int, bothSys bool) *vhR
 		if i > 0 {
 			verif.Assume(bytes.Compare(r.keys[i-1], k) < 0)
 		}
-		if err := db.Set(vhEnc(k), v, nil); err != nil {
+		if err := db.Set(vhEnc(k), v, pebble.NoSync); err != nil {
 			panic(err)
 		}
 		r.keys = append(r.keys, k)
@@ -158,12 +158,12 @@ func vhArbitraryStateSys(db *pebble.DB, maxN, maxK, maxV int, bothSys bool) *vhR
 	}
 	if bothSys || verif.Bool() {
 		r.hasIndex, r.index = true, verif.Uint64()
-		if err := db.Set(sysLocalIndex, vhU64(r.index), nil); err != nil {
+		if err := db.Set(sysLocalIndex, vhU64(r.index), pebble.NoSync); err != nil {
 			panic(err)
 		}
 		if bothSys || verif.Bool() {
 			r.hasLeader, r.leader = true, verif.Uint64()
-			if err := db.Set(sysLeaderIndex, vhU64(r.leader), nil); err != nil {
+			if err := db.Set(sysLeaderIndex, vhU64(r.leader), pebble.NoSync); err != nil {
 				panic(err)
 			}
 		}
